@@ -331,4 +331,302 @@ Proof.
   now rewrite (complex_find_same_maps _ _ n M).
 Qed.
 
+(* ------------------------------------------------------------------ *)
+(* structures built from a reference (ElementFinder._parse_structure)   *)
+
+Definition entry_of (vc : vchild) : sentry := mk_sentry (vc_name vc) (vc_ref vc) (vc_kind vc).
+Definition name_pairs (vcs : list vchild) : list (str * sentry) := map (fun vc => (vc_name vc, entry_of vc)) vcs.
+Definition long_pairs (vcs : list vchild) : list (option str * sentry) :=
+  flat_map (fun vc => match ref_long (vc_ref vc) with Some l => [(l, entry_of vc)] | None => [] end) vcs.
+Definition rep_pairs (vcs : list vchild) : list (str * (Z * Z)) := map (fun vc => (vc_name vc, (vc_mn vc, vc_mx vc))) vcs.
+
+Lemma parse_children_spec : forall vcs seen ord byn byl reps,
+  NoDup (map vc_name vcs) ->
+  (forall vc, In vc vcs -> slookup (vc_name vc) byn = None) ->
+  parse_children (map Some vcs) seen ord byn byl reps =
+  Ok (rev ord ++ map vc_name vcs, rev byn ++ name_pairs vcs, rev byl ++ long_pairs vcs, rev reps ++ rep_pairs vcs).
+Proof.
+  induction vcs as [|vc rest IH]; intros seen ord byn byl reps ND Hfree.
+  - cbn. now rewrite !app_nil_r.
+  - destruct vc as [name r mn mx k]. cbn [map parse_children].
+    assert (F : slookup name byn = None) by (apply (Hfree (mk_vchild name r mn mx k)); now left).
+    rewrite F. inversion ND as [|? ? Hn ND']; subst.
+    rewrite IH; [|exact ND'|].
+    + f_equal. unfold name_pairs, long_pairs, rep_pairs. cbn [map flat_map vc_name vc_ref vc_mn vc_mx rev].
+      unfold entry_of at 2 4. cbn [vc_name vc_ref vc_kind].
+      rewrite <- !app_assoc. cbn [app].
+      destruct (ref_long r); cbn [rev app]; rewrite <- ?app_assoc; reflexivity.
+    + intros vc' I. unfold slookup. cbn [alookup].
+      change (leqb beqb (vc_name vc') name) with (streqb (vc_name vc') name).
+      destruct (streqb_spec (vc_name vc') name) as [E|N].
+      * exfalso. apply Hn. cbn [vc_name] in *. rewrite <- E. now apply in_map.
+      * apply Hfree. now right.
+Qed.
+
+(* the structure of a sequence/choice reference whose rows are well formed and distinctly named *)
+Definition built (st : structure) (vcs : list vchild) : Prop :=
+  NoDup (map vc_name vcs) /\ st_ordered st = Some (map vc_name vcs) /\
+  st_by_name st = name_pairs vcs /\ st_by_long st = long_pairs vcs.
+
+Lemma parse_structure_seq r ch vcs i :
+  view_of t r = VSeq ch (map Some vcs) i -> NoDup (map vc_name vcs) ->
+  exists st, parse_structure t r = Ok st /\ built st vcs /\ st_reference st = r /\ st_info st = i.
+Proof.
+  intros V ND. unfold parse_structure. rewrite V.
+  pose proof (parse_children_spec vcs [] [] [] [] [] ND (fun _ _ => eq_refl)) as E. cbn [rev app] in E.
+  eexists. split; [rewrite E; reflexivity|]. unfold built. cbn. auto.
+Qed.
+
+Lemma built_has_map st vcs : built st vcs -> has_map_st st = true.
+Proof. intros (_ & O & _). unfold has_map_st. now rewrite O. Qed.
+
+Lemma built_keys_nodup st vcs : built st vcs -> NoDup (map fst (st_by_name st)).
+Proof.
+  intros (ND & _ & N & _). rewrite N. unfold name_pairs. rewrite map_map. cbn [fst]. exact ND.
+Qed.
+
+Lemma built_name_in st vcs vc : built st vcs -> In vc vcs -> In (vc_name vc, entry_of vc) (st_by_name st).
+Proof.
+  intros (_ & _ & N & _) I. rewrite N. unfold name_pairs.
+  apply in_map_iff. exists vc. auto.
+Qed.
+
+Lemma built_long_in st vcs vc l :
+  built st vcs -> In vc vcs -> ref_long (vc_ref vc) = Some l -> In (l, entry_of vc) (st_by_long st).
+Proof.
+  intros (_ & _ & _ & L) I R. rewrite L. unfold long_pairs. apply in_flat_map. exists vc.
+  split; [exact I|]. rewrite R. now left.
+Qed.
+
+Lemma built_long_inv st vcs l e :
+  built st vcs -> In (l, e) (st_by_long st) ->
+  exists vc, In vc vcs /\ ref_long (vc_ref vc) = Some l /\ e = entry_of vc.
+Proof.
+  intros (_ & _ & _ & L) I. rewrite L in I. unfold long_pairs in I. apply in_flat_map in I.
+  destruct I as [vc [Ivc H]]. exists vc. destruct (ref_long (vc_ref vc)) as [l'|]; [|destruct H].
+  destruct H as [E|[]]. injection E as -> ->. auto.
+Qed.
+
+Lemma built_by_name st vcs vc : built st vcs -> In vc vcs -> by_name st (vc_name vc) = Some (entry_of vc).
+Proof.
+  intros B I. apply by_name_hit; [eapply built_keys_nodup, B|eapply built_name_in; eauto].
+Qed.
+
+Lemma built_name_inv st vcs k e :
+  built st vcs -> In (k, e) (st_by_name st) -> exists vc, In vc vcs /\ k = vc_name vc /\ e = entry_of vc.
+Proof.
+  intros (_ & _ & N & _) I. rewrite N in I. unfold name_pairs in I. apply in_map_iff in I.
+  destruct I as [vc [E Ivc]]. injection E as <- <-. eauto.
+Qed.
+
+(* C14_long for a structure built from a reference: row vc, whose long name l is carried by no other
+   row and is not the name of a row, is reached by l exactly as by its HL7 name *)
+Lemma built_long_same st vcs vc l :
+  built st vcs -> In vc vcs -> ref_long (vc_ref vc) = Some (Some l) ->
+  (forall vc', In vc' vcs -> ref_long (vc_ref vc') = Some (Some l) -> vc' = vc) ->
+  (forall vc', In vc' vcs -> vc_name vc' <> l) ->
+  struct_lookup st l = Some (entry_of vc) /\ struct_lookup st (vc_name vc) = Some (entry_of vc).
+Proof.
+  intros B I R U N. split.
+  - apply struct_lookup_long.
+    + eapply built_long_in; eauto.
+    + intros e' I'. destruct (built_long_inv _ _ _ _ B I') as [vc' (Ivc' & R' & ->)].
+      now rewrite (U vc' Ivc' R').
+    + intros K. apply in_map_iff in K. destruct K as [[k e] [E K]]. cbn [fst] in E. subst k.
+      destruct (built_name_inv _ _ _ _ B K) as [vc' (Ivc' & E' & _)]. now apply (N vc' Ivc').
+  - unfold struct_lookup. now rewrite (built_by_name _ _ _ B I).
+Qed.
+
+(* rows NAME_1 .. NAME_n (Wf.rows_contiguous) are distinctly named *)
+Lemma name_idx_seq_NoDup p a n : NoDup (map (name_idx p) (seq a n)).
+Proof. apply FinFun.Injective_map_NoDup; [intros i j; apply name_idx_inj|apply seq_NoDup]. Qed.
+
+(* ------------------------------------------------------------------ *)
+(* positional paths                                                     *)
+
+Lemma split_aux_app_sep c cur x y :
+  split_aux beqb c cur (x ++ c :: y) = split_aux beqb c cur x ++ split_aux beqb c [] y.
+Proof.
+  revert cur. induction x as [|a x IH]; intros cur; cbn [app split_aux].
+  - now rewrite beqb_refl.
+  - destruct (beqb a c); [now rewrite IH|apply IH].
+Qed.
+
+Lemma bsplit_app_sep c x y : bsplit c (x ++ c :: y) = bsplit c x ++ bsplit c y.
+Proof. apply split_aux_app_sep. Qed.
+
+Lemma us_not_digit : is_digit US = false.
+Proof. reflexivity. Qed.
+
+Lemma bsplit_name_idx p j : bsplit US (name_idx p j) = bsplit US p ++ [nat_to_str j].
+Proof.
+  unfold name_idx. change (unbs "_" ++ nat_to_str j) with (US :: nat_to_str j).
+  rewrite bsplit_app_sep. f_equal. apply bsplit_nosep, nosep_of_bmem.
+  apply digits_no; [reflexivity|apply nat_to_str_digits].
+Qed.
+
+Lemma py_int_nat j : py_int (nat_to_str j) = Some (Z.of_nat j).
+Proof.
+  unfold py_int. rewrite (digits_strip _ (nat_to_str_digits j)).
+  pose proof (nat_to_str_all_digits j) as A. pose proof (nat_to_str_val j) as V.
+  pose proof (nat_to_str_digits j) as D.
+  destruct (nat_to_str j) as [|c r] eqn:E; [discriminate|].
+  cbn [forallb] in D. apply andb_prop in D. destruct D as [Dc _].
+  rewrite (digit_not c "+" eq_refl Dc), (digit_not c "-" eq_refl Dc), A, V.
+  now rewrite nat_N_Z.
+Qed.
+
+Lemma Z_to_str_nat j : Z_to_str (Z.of_nat j) = nat_to_str j.
+Proof. destruct j; reflexivity. Qed.
+
+Lemma has_digit_name_idx p j : existsb is_digit (name_idx p j) = true.
+Proof.
+  unfold name_idx. rewrite !existsb_app. pose proof (nat_to_str_ne j) as N. pose proof (nat_to_str_digits j) as D.
+  destruct (nat_to_str j) as [|c r]; [congruence|]. cbn [forallb] in D. apply andb_prop in D.
+  cbn [existsb]. rewrite (proj1 D). now rewrite !orb_true_r.
+Qed.
+
+Lemma attrs_no_digit_Field : forallb (fun a => negb (existsb is_digit a)) cls_attrs_Field = true.
+Proof. vm_compute. reflexivity. Qed.
+Lemma attrs_no_digit_Component : forallb (fun a => negb (existsb is_digit a)) cls_attrs_Component = true.
+Proof. vm_compute. reflexivity. Qed.
+Lemma attrs_no_digit_Segment : forallb (fun a => negb (existsb is_digit a)) cls_attrs_Segment = true.
+Proof. vm_compute. reflexivity. Qed.
+
+Lemma digit_name_not_attr attrs n :
+  forallb (fun a => negb (existsb is_digit a)) attrs = true -> existsb is_digit n = true -> smem n attrs = false.
+Proof.
+  intros H D. destruct (smem n attrs) eqn:E; [|reflexivity]. apply smem_true_iff in E.
+  rewrite forallb_forall in H. specialize (H n E). rewrite D in H. discriminate.
+Qed.
+
+(* a name <x>_<j> in upper case is never taken for an attribute *)
+Lemma guard_Field_idx p j : upper p = p -> guard_Field (name_idx p j) = false.
+Proof.
+  intros U. apply guard_Field_upper. rewrite name_idx_upper, U.
+  apply digit_name_not_attr; [apply attrs_no_digit_Field|apply has_digit_name_idx].
+Qed.
+Lemma guard_Component_idx p j : upper p = p -> guard_Component (name_idx p j) = false.
+Proof.
+  intros U. apply guard_Component_upper. rewrite name_idx_upper, U.
+  apply digit_name_not_attr; [apply attrs_no_digit_Component|apply has_digit_name_idx].
+Qed.
+Lemma guard_Segment_idx p j : upper p = p -> guard_Segment (name_idx p j) = false.
+Proof.
+  intros U. apply guard_Segment_upper. rewrite name_idx_upper, U.
+  apply digit_name_not_attr; [apply attrs_no_digit_Segment|apply has_digit_name_idx].
+Qed.
+
+Lemma name_idx_upper_id p j : upper p = p -> upper (name_idx p j) = name_idx p j.
+Proof. intros U. now rewrite name_idx_upper, U. Qed.
+
+Lemma two_parts_join fname a b : bsplit US fname = [a; b] -> a ++ "_" ++ b = fname.
+Proof.
+  intros H. rewrite <- (bjoin_bsplit US fname), H. reflexivity.
+Qed.
+
+(* _get_traversal_children on <field>_<j> and <field>_<j>_<k> *)
+Lemma traversal_children_comp fname a b j :
+  upper fname = fname -> bsplit US fname = [a; b] ->
+  get_traversal_children (Some fname) (name_idx fname j) = Some (Z.of_nat j, None).
+Proof.
+  intros U S. unfold get_traversal_children. rewrite (name_idx_upper_id _ _ U), bsplit_name_idx, S.
+  cbn [app]. rewrite py_int_nat, (two_parts_join _ _ _ S). cbn [opt_eqb]. now rewrite streqb_refl.
+Qed.
+
+Lemma traversal_children_sub fname a b j k :
+  upper fname = fname -> bsplit US fname = [a; b] ->
+  get_traversal_children (Some fname) (name_idx (name_idx fname j) k) = Some (Z.of_nat j, Some (Z.of_nat k)).
+Proof.
+  intros U S. unfold get_traversal_children.
+  rewrite (name_idx_upper_id _ k (name_idx_upper_id _ j U)), !bsplit_name_idx, S.
+  cbn [app]. rewrite !py_int_nat, (two_parts_join _ _ _ S). cbn [opt_eqb]. now rewrite streqb_refl.
+Qed.
+
+(* positional path of a component: when the path is not itself a name, it is decoded and the
+   component name <datatype>_<j> is looked up instead (any j, existing or not) *)
+Lemma traverse_positional_comp k f fname a b j d :
+  f_name f = Some fname -> upper fname = fname -> bsplit US fname = [a; b] ->
+  f_dt f = Some d -> base t (Some d) = false ->
+  field_find_child_reference t f (name_idx fname j) = Err (HL7 EChildNotFound) ->
+  field_traverse t lvl (S k) f (name_idx fname j) = field_traverse t lvl k f (name_idx d j).
+Proof.
+  intros Hn U S D B H. cbn [field_traverse].
+  rewrite (guard_Field_idx _ j U), (name_idx_upper_id _ j U), H, Hn.
+  rewrite (traversal_children_comp _ _ _ j U S), D, B. cbn [andb str_of_opt].
+  rewrite Z_to_str_nat. reflexivity.
+Qed.
+
+(* a field of base datatype: only <field>_1 exists, it is the component named like the datatype *)
+Lemma traverse_positional_base k f fname a b j d :
+  f_name f = Some fname -> upper fname = fname -> bsplit US fname = [a; b] ->
+  f_dt f = Some d -> base t (Some d) = true -> bmem US d = false ->
+  field_traverse t lvl (S k) f (name_idx fname j) =
+  if Nat.eqb j 1 then field_traverse t lvl k f d else Err (HL7 EChildNotFound).
+Proof.
+  intros Hn U S D B Hd. cbn [field_traverse].
+  rewrite (guard_Field_idx _ j U), (name_idx_upper_id _ j U).
+  assert (F : field_find_child_reference t f (name_idx fname j) = Err (HL7 EChildNotFound)).
+  { unfold field_find_child_reference. rewrite D, B. cbn [opt_eqb].
+    destruct (streqb_spec (name_idx fname j) d) as [E|N]; [|reflexivity].
+    exfalso. rewrite <- E in Hd. unfold name_idx, bmem, mem in Hd. rewrite existsb_app in Hd.
+    cbn in Hd. rewrite orb_true_r in Hd. discriminate. }
+  rewrite F, Hn, (traversal_children_comp _ _ _ j U S), D, B. cbn [andb opt_is_some opt_is_none negb orb str_of_opt].
+  destruct j as [|[|j]]; reflexivity.
+Qed.
+
+Lemma traverse_positional_base_sub k f fname a b j k' d :
+  f_name f = Some fname -> upper fname = fname -> bsplit US fname = [a; b] ->
+  f_dt f = Some d -> base t (Some d) = true -> bmem US d = false ->
+  field_traverse t lvl (S k) f (name_idx (name_idx fname j) k') = Err (HL7 EChildNotFound).
+Proof.
+  intros Hn U S D B Hd. cbn [field_traverse].
+  rewrite (guard_Field_idx _ k' (name_idx_upper_id _ j U)), (name_idx_upper_id _ k' (name_idx_upper_id _ j U)).
+  assert (F : field_find_child_reference t f (name_idx (name_idx fname j) k') = Err (HL7 EChildNotFound)).
+  { unfold field_find_child_reference. rewrite D, B. cbn [opt_eqb].
+    destruct (streqb_spec (name_idx (name_idx fname j) k') d) as [E|N]; [|reflexivity].
+    exfalso. rewrite <- E in Hd. unfold name_idx at 1 in Hd. unfold bmem, mem in Hd. rewrite existsb_app in Hd.
+    cbn in Hd. rewrite orb_true_r in Hd. discriminate. }
+  rewrite F, Hn, (traversal_children_sub _ _ _ j k' U S), D, B. reflexivity.
+Qed.
+
+(* positional path of a subcomponent *)
+Lemma traverse_positional_sub k f fname a b j k' d :
+  f_name f = Some fname -> upper fname = fname -> bsplit US fname = [a; b] ->
+  f_dt f = Some d -> base t (Some d) = false ->
+  field_find_child_reference t f (name_idx (name_idx fname j) k') = Err (HL7 EChildNotFound) ->
+  field_traverse t lvl (S k) f (name_idx (name_idx fname j) k') =
+  (do r <- field_traverse t lvl k f (name_idx d j);
+   match r with
+   | TChild ce =>
+       do cref <- designated_component_ref f (name_idx d j);
+       do cdt <- (match ref_info cref with Some i => Ok (i_dt i) | None => Err (Crash IndexError) end);
+       do c <- component_of_entry t lvl ce;
+       match comp_getattr t c (name_idx (str_of_opt cdt) k') with
+       | Ok (TChild se) => Ok (TGrand ce se)
+       | Ok _ => Err (Crash AttributeError)
+       | Err x => Err x
+       end
+   | _ => Err (Crash AttributeError)
+   end).
+Proof.
+  intros Hn U S D B H. cbn [field_traverse].
+  rewrite (guard_Field_idx _ k' (name_idx_upper_id _ j U)), (name_idx_upper_id _ k' (name_idx_upper_id _ j U)).
+  rewrite H, Hn, (traversal_children_sub _ _ _ j k' U S), D, B. cbn [andb str_of_opt].
+  rewrite !Z_to_str_nat. reflexivity.
+Qed.
+
+(* looking a component up by its own name <datatype>_<j> under a complex field *)
+Lemma traverse_by_name k f st d j ce :
+  f_st f = Some st -> has_map_st st = true -> NoDup (map fst (st_by_name st)) ->
+  base t (f_dt f) = false -> is_varies (f_dt f) = false -> upper d = d ->
+  In (name_idx d j, ce) (st_by_name st) ->
+  field_traverse t lvl (S k) f (name_idx d j) = Ok (TChild ce).
+Proof.
+  intros Hst M ND B V U I. cbn [field_traverse].
+  rewrite (guard_Field_idx _ j U), (name_idx_upper_id _ j U).
+  rewrite (field_find_complex f _ B V), Hst. unfold complex_find_child_reference. rewrite M.
+  rewrite (name_idx_upper_id _ j U). unfold struct_lookup. now rewrite (by_name_hit st _ ce ND I).
+Qed.
+
 End Facts.
